@@ -43,19 +43,26 @@ Theorem C01_idle_step_wakes_nothing :
 Proof. exact ff_item_idle. Qed.
 
 (* (ii) the emitted expression has the same IEEE-1800 value as the Veryl expression in every context, for
-   every expression on which veryl's typing coincides with the standard's (expr_ok) *)
+   every expression on which veryl's typing coincides with the standard's (expr_okc = expr_ok of the expression as
+   printed, i.e. after the emitter's brace removal `canon`) *)
 Theorem C01_emit_expr_preserves :
-  forall md env D st e, expr_ok D e = true ->
+  forall md env D st e, expr_okc D e = true ->
     forall c, sv_ev md env D st c (emit_expr e) = ev md D st c e.
 Proof. exact ev_emit. Qed.
 
 (* ... and where only the width and the value of an operand matter (conditions, operands of ! && || and of the
    reductions, shift amounts, concatenation items, $signed/$unsigned arguments) also for a comparison of two
-   signed operands, which veryl types as signed and the standard as unsigned (expr_okw) *)
+   signed operands, which veryl types as signed and the standard as unsigned (expr_okwc) *)
 Theorem C01_emit_expr_preserves_selfdetermined :
-  forall md env D st e, expr_okw D e = true ->
+  forall md env D st e, expr_okwc D e = true ->
     sv_ev md env D st (sv_gather D (emit_expr e)) (emit_expr e) = ev md D st (gather D e) e.
 Proof. exact ev_emit_weak. Qed.
+
+(* the emitter's brace removal (`{{a, b}}` prints `{a, b}`, `{x, {a repeat n}}` prints `{x, {n{a}}}`) changes neither
+   the self-determined type nor the value *)
+Theorem C01_brace_removal_preserves :
+  forall md D st e, gather D (canon e) = gather D e /\ forall c, ev md D st c (canon e) = ev md D st c e.
+Proof. exact canon_sound. Qed.
 
 (* (iii) statements: an emitted always_comb body run with blocking assignments is exec_list; an emitted
    always_ff body run against the pre-edge state leaves the state alone and appends to the NBA queue exactly
@@ -106,8 +113,13 @@ Example C01_example_in_core :
 Proof. exact ex_in_core. Qed.
 Example C01_example_signed_comparison_as_condition :
   stmt_ok rs_D (SIf (EBin BLt (EVar 0) (EVar 1)) [SAssign 3 (EBin BAdd (ECat [(EBin BGe (EVar 0) (EVar 1), 1)]) (EVar 2))] []) = true /\
-  expr_ok rs_D rs_e = false.
+  expr_okc rs_D rs_e = false.
 Proof. split; reflexivity. Qed.
+Example C01_example_brace_removal :
+  emit_expr (ECat [(EVar 0, 1); (ECat [(EVar 1, 2)], 1)]) = XCat [(XVar 0, 1); (XVar 1, 2)] /\
+  emit_expr (ECat [(ECat [(EVar 0, 1); (EVar 1, 1)], 1)]) = XCat [(XVar 0, 1); (XVar 1, 1)] /\
+  emit_expr (ECat [(EBin BLt (EVar 0) (EVar 1), 1)]) = XCat [(XBin BLt (XVar 0) (XVar 1), 1)].
+Proof. repeat split. Qed.
 Example C01_example_emitted_async_low :
   emit_item async_low_cfg ex_counter =
   VFf [(Pos, SClk); (Neg, SRst)]
@@ -132,6 +144,7 @@ Print Assumptions C01_clock_reset_skeleton.
 Print Assumptions C01_idle_step_wakes_nothing.
 Print Assumptions C01_emit_expr_preserves.
 Print Assumptions C01_emit_expr_preserves_selfdetermined.
+Print Assumptions C01_brace_removal_preserves.
 Print Assumptions C01_emit_body_preserves.
 Print Assumptions C01_emit_preserves_partial.
 Print Assumptions C01_settle_idem_noself.
